@@ -218,7 +218,7 @@ EXTRA12 = {
  "C03": " The comparator sort reaches the scan on every path (a branch that hands the scan an array ordered some other way is not understood). The scan's abstract runs see the node map _add_edge leaves behind and are repeated with the closes of directly nested spans exchanged (identical spans may close in either order); thorough tier: all 196 well-nested sequences of up to six events.",
  "C05": " Thorough tier: the reference bit sweep itself is validated under pandas against the brute-force exclusive-combination measure on 18000 (family triple, tie order) cases.",
  "C09": " Validation leaves a re-weighted 'weight' attribute as it found it (abstract runs on a re-weighted one-edge graph). A second critical_path() on the same object after the graph changed reports the new path only (abstract run: no memo, no early return, edge set rebuilt); validation hooked to fail never reaches the search (abstract run, shared with C08); the shape rules defer to these runs. The result members are not class-level mutable defaults.",
- "C08": " critical_path() with validation hooked to fail never reaches the search and reports no success (abstract run). The two window selections (host events, device activities through their launch call) use identical comparison operators, whether written as query strings or as boolean masks.",
+ "C08": " critical_path() with validation hooked to fail never reaches the search and reports no success (abstract run). The two window selections (host events, device activities through their launch call) use identical comparison operators, whether written as query strings or as boolean masks. Every thread's call-stack walk starts from a fresh traversal state (no state object written by the walk is shared across the loop over the threads).",
  "C04": " Whatever the algorithm, merge_kernel_intervals computes the merged set from every row of its input (callers take the span of the merged set for the span of the input).",
  "C10": " One realisable cell of the bound_by column's table in another class decides (a kernel-to-kernel delay on a host stream is not a realisable state).",
  "C11": " add_symbols is decided by an abstract run on a concrete table (known symbols keep their ids; a new symbol repeated within one call is appended once).",
